@@ -44,7 +44,7 @@ def run(ctx):
     ctx.ob("C35.D1-inputs-not-mutated", f"{TW}:RunNormalizer mutation sites evaluated", cd.evaluated >= 20, f"{cd.evaluated} sites", where="")
     # D2
     emit = repo.func(TW, "RunNormalizer.emit")
-    b = [A.norm(s) for s in emit.node.body if not (isinstance(s, ast.Expr) and isinstance(s.value, ast.Constant))]
+    b = [A.norm(s) for s in A.body(emit.node)]
     ok = b == ["schema_validators[name].validate(doc)", "self.dispatcher.process(name, doc)"]
     ctx.ob("C35.D2-only-validated-documents", cname(emit, None, "validate, then dispatch"), ok, "" if ok else f"emit is {b}", where=where(emit, emit.node))
     n_direct = 0
